@@ -570,5 +570,19 @@ func siblingBlockPrograms() [][]string {
 			append(append([]string{}, lines...), "if b then return elseif a then local a = 1 else for b = 1, 2 do print(a, b) end end"),
 			append(append([]string{}, lines...), "local r = { function(a) return a end, function(b) return a, b end }"))
 	}
+	// further hand-written shapes outside the statement alphabets (each found worth having by a seeded change)
+	out = append(out,
+		[]string{"local a, b = 1, 2", "local c = a..b..a", "print(c, a..b..c)"},
+		[]string{"local a = 1", "while (function(b) return a and b end)(a) do a = nil end"},
+		[]string{"local a = {}", "for b, c in next, a do print(b, c) end", "for b in string.gmatch(\"s\", \"s\") do print(b) end"},
+		[]string{"local a <const>, b <const> = 1, 2", "print(a, b)"},
+		[]string{"local a <close>, b = nil, 2", "print(a, b)"},
+		[]string{"local s = [[", "x]]", "local a = 1", "local function f(b)", "  return a, b", "end", "print(a, f)"},
+		[]string{"--[==[", "c]==]", "local a = 1", "do", "  local b = a", "  print(a, b)", "end"},
+		[]string{"local function a(b) if b then return a(b) end end", "a(1)"},
+		[]string{"local a = \"it's\"", "local b = 'say \"' .. a", "print(\"it's\", a, b)"},
+		[]string{"local a, b = 1, 2", "local c = a // b + (a << b) + (a ~ b)", "print(c)"},
+		[]string{"local a = 1", "goto done", "local b = a", "::done::", "print(a)"},
+	)
 	return out
 }
